@@ -812,6 +812,9 @@ func (b *Builder) planReplace() stepPlan {
 	// add voter + remove voter OR add learner + remove learner.
 	for _, i := range b.toAdd.IDs() {
 		add := b.toAdd[i]
+		if !b.canAddNow(add) {
+			continue
+		}
 		for _, j := range b.toRemove.IDs() {
 			remove := b.toRemove[j]
 			if core.IsLearner(remove) == core.IsLearner(add) {
@@ -823,7 +826,7 @@ func (b *Builder) planReplace() stepPlan {
 	for _, i := range b.toPromote.IDs() {
 		promote := b.toPromote[i]
 		for _, j := range b.toAdd.IDs() {
-			if add := b.toAdd[j]; core.IsLearner(add) {
+			if add := b.toAdd[j]; core.IsLearner(add) && b.canAddNow(add) {
 				for _, k := range b.toRemove.IDs() {
 					if remove := b.toRemove[k]; !core.IsLearner(remove) && j != k {
 						best = b.planReplaceLeaders(best, stepPlan{promote: promote, add: add, remove: remove})
@@ -838,7 +841,7 @@ func (b *Builder) planReplace() stepPlan {
 		for _, j := range b.toRemove.IDs() {
 			if remove := b.toRemove[j]; core.IsLearner(remove) {
 				for _, k := range b.toAdd.IDs() {
-					if add := b.toAdd[k]; !core.IsLearner(add) && j != k {
+					if add := b.toAdd[k]; !core.IsLearner(add) && j != k && b.canAddNow(add) {
 						best = b.planReplaceLeaders(best, stepPlan{demote: demote, add: add, remove: remove})
 					}
 				}
@@ -846,6 +849,14 @@ func (b *Builder) planReplace() stepPlan {
 		}
 	}
 	return best
+}
+
+// canAddNow reports whether the store of a pending add is free. When demoting is
+// not allowed, a voter->learner change is split into a remove and an add on the
+// SAME store; that add has to wait until the old peer has been removed.
+func (b *Builder) canAddNow(add *metapb.Peer) bool {
+	_, occupied := b.currentPeers[add.GetStoreId()]
+	return !occupied
 }
 
 func (b *Builder) planReplaceLeaders(best, next stepPlan) stepPlan {
@@ -922,6 +933,9 @@ func (b *Builder) planAddPeer() stepPlan {
 	var best stepPlan
 	for _, i := range b.toAdd.IDs() {
 		a := b.toAdd[i]
+		if !b.canAddNow(a) {
+			continue
+		}
 		for _, leader := range b.currentPeers.IDs() {
 			if b.allowLeader(b.currentPeers[leader], false) {
 				best = b.comparePlan(best, stepPlan{add: a, leaderBeforeAdd: leader})
